@@ -16,7 +16,7 @@ LEVEL_TEXT = ('Termination is decided by a progress rule on every loop (an exit 
               'the bookkeeping identities (volumes telescope, radii increase, gravity, enclosed mass, contiguity in every derived-geometry path, scaling) are exact identities of the extracted formulas '
               'for symbolic radii, thicknesses, masses and slice counts 2..5.')
 LEVEL_NOTE = 'Trusted: front-end, interpreter, real algebra (rounding of sums not decided). Shipped world configuration files themselves are not analysed (data, not code).'
-EXPLANATION = 'R16.1 loop progress; R16.2 inputs not mutated; R16.3 geometry/mass identities; R16.4 radius scaling and distinct names along derivation chains; R16.5 mass bookkeeping survives a derivation (parent reinit -> scale/build_from_world -> derived reinit).'
+EXPLANATION = 'R16.1 loop progress; R16.2 inputs not mutated; R16.3 geometry/mass identities (also when the slice arrays were pre-filled by the layers, build_slices=False); R16.4 radius scaling and distinct names along derivation chains; R16.5 mass bookkeeping survives a derivation (parent reinit -> scale/build_from_world -> derived reinit).'
 
 
 def run(chk):
